@@ -397,7 +397,91 @@ def _observe_seq(case):
     return _CACHE[k]
 
 
+# ---- dev-only line coverage of the anchored functions: VERIF_COVERAGE=1 ./check C20 --no-coq ----
+COVER_TARGETS = [
+    ('ombott/error_render.py', ['render']),
+    ('ombott/ombott.py', ['Ombott.default_error_handler', 'Ombott.wsgi', 'Ombott._handle', 'Ombott.handler',
+                          'Ombott._cast', 'Ombott.error', 'Ombott.setup']),
+    ('ombott/common_helpers.py', ['html_escape']),
+    ('ombott/request_pkg/props_mixin.py', ['PropsMixin.url', 'PropsMixin.urlparts', 'PropsMixin.fullpath',
+                                           'PropsMixin.script_name', 'PropsMixin.is_json_requested', 'PropsMixin.path']),
+]
+_COV = {}
+
+
+def _cov_setup():
+    import ast
+    import atexit
+    import os
+    import sys
+    import ombott
+    root = os.path.dirname(os.path.dirname(os.path.abspath(ombott.__file__)))
+    want = {}
+    for rel, names in COVER_TARGETS:
+        path = os.path.join(root, rel)
+        tree = ast.parse(open(path).read())
+        lines = {}
+
+        def visit(node, prefix):
+            for n in getattr(node, 'body', []):
+                if isinstance(n, ast.ClassDef):
+                    visit(n, prefix + n.name + '.')
+                elif isinstance(n, (ast.FunctionDef, ast.AsyncFunctionDef)):
+                    q = prefix + n.name
+                    if q in names:
+                        body_lines = set()
+                        for st in n.body:
+                            for sub in ast.walk(st):
+                                if isinstance(sub, ast.stmt) and not (
+                                        isinstance(sub, ast.Expr) and isinstance(sub.value, ast.Constant)
+                                        and isinstance(sub.value.value, str)):
+                                    body_lines.add(sub.lineno)
+                        lines[q] = body_lines
+        visit(tree, '')
+        want[path] = lines
+    hit = {p: set() for p in want}
+
+    def tracer(frame, event, arg):
+        fn = frame.f_code.co_filename
+        if fn in hit:
+            if event == 'line':
+                hit[fn].add(frame.f_lineno)
+            return tracer
+        return None
+    _COV.update(want=want, hit=hit, tracer=tracer)
+
+    def report():
+        tot = got = 0
+        out = []
+        for p, fns in want.items():
+            src = open(p).read().split('\n')
+            for q, ls in sorted(fns.items()):
+                miss = sorted(ls - hit[p])
+                tot += len(ls)
+                got += len(ls) - len(miss)
+                out.append('%s:%s  %d/%d' % (os.path.relpath(p, root), q, len(ls) - len(miss), len(ls)))
+                for ln in miss:
+                    out.append('    unreached %d: %s' % (ln, src[ln - 1].strip()))
+        out.append('COVERAGE C20 anchored functions: %d/%d lines' % (got, tot))
+        sys.stderr.write('\n'.join(out) + '\n')
+    atexit.register(report)
+
+
 def run_impl(case):
+    import os
+    import sys
+    if os.environ.get('VERIF_COVERAGE') == '1':
+        if not _COV:
+            _cov_setup()
+        sys.settrace(_COV['tracer'])
+        try:
+            return _run_impl(case)
+        finally:
+            sys.settrace(None)
+    return _run_impl(case)
+
+
+def _run_impl(case):
     if case['t'] == 'prim':
         return _prim_impl(case)
     if case['t'] == 'seq':
